@@ -119,7 +119,8 @@ pub fn install_panic_hook() {
         } else {
             "<non-string panic>".to_string()
         };
-        if VERBOSE_PANICS.load(Ordering::Relaxed) || msg.starts_with("unsafe precondition") {
+        // (payloads that are not strings are the harness's own injected crashes, which a scenario catches)
+        if (VERBOSE_PANICS.load(Ordering::Relaxed) && msg != "<non-string panic>") || msg.starts_with("unsafe precondition") {
             // the process is about to abort (e.g. a violated unsafe precondition under debug
             // assertions): leave the reason behind for the supervising process
             eprintln!("NONUNWIND-PANIC {} at {}", msg.replace('\n', " "), short_loc(&loc));
